@@ -961,7 +961,7 @@ func runC14(c *core.Ctx) {
 		c.SetExhaustive(true) // x1 and x2 are enumerated completely; the flag does not cover list rand
 	}
 
-	c.Cases("rand", c.N(20000, 1000000), func(k *core.Case) {
+	c.Cases("rand", c.N(20000, 2500000), func(k *core.Case) {
 		in, desc := c14Random(k.R)
 		k.Describe(desc)
 		m := c14Build(in)
